@@ -5,6 +5,19 @@
 // goes into an ordered "in flight" list; plan ops deliver, drop or duplicate individual in-flight packets (delivering a
 // packet while an older one of the same source is still in flight is a reordering), make a sender's next writes return
 // 0 (would-block), or destroy and re-create a sending gateway at the same source address (sender_restart).
+//
+// Oracle.  Every delivered Message must be byte-identical (Flat()) to a Message sent by the very source the gateway names
+// (`not_sent`; `not_sent_after_restart` when that source had a sender_restart before -- finding F10; `wrong_source`); a Message
+// may arrive more often than it was sent only after a packet of its source was delivered twice (`dup_without_dup_fault`); a
+// source that tags its packets with the receiver's own source-exclusion id must not be heard (`excluded_source_delivered`); no
+// packet may exceed the MTU (`mtu_exceeded`).  After the drain, when no packet was dropped, duplicated or reordered and no
+// sender restarted, every sender's delivered sequence must equal its sent sequence, exactly once and in order, except for
+// Messages the gateway's limits exclude (`perfect_mismatch` when no would-block fired either, else `wouldblock_mismatch`).
+// Violation classes the unchanged library produces, kept apart by name so that they cannot mask anything else:
+//   not_sent_after_restart          F10: no epoch in the fragment header
+//   big_msg_lost_with_slave         with a slave gateway the receiver truncates every reassembled buffer to the default packet size (1168)
+//   stuck_after_would_block         a packet held back after a would-block is not reported by HasBytesToOutput()
+//   wouldblock_mismatch_mini_zlib   mini tunnel: a held-back packet's header stays patched to "not compressed" although the retry is compressed
 #pragma once
 #include <string>
 #include <vector>
@@ -198,19 +211,23 @@ inline Plan Gen(uint64_t seed)
    int msgs = 0; uint64_t bytes = 0; uint32_t plannedPackets = 0;
    struct Prev {int s; uint64_t gs; uint32_t sz;}; std::vector<Prev> prev;
 
+   auto Small = [&](uint32_t span) -> uint32_t {const uint32_t r = wl.below(4); return (r == 0) ? kFlatEmpty : ((r == 1) ? kFlatFromOnly : (kFlatBase + wl.below(std::max<uint32_t>(1, span))));};
    auto PickSize = [&]() -> uint32_t
    {
       const uint32_t r = wl.below(100); uint32_t sz;
       if (g.mini)
       {
          const uint32_t fit = (cap > sh) ? (cap-sh) : 0;    // the largest flattened size that still fits
+         const uint32_t fitR = (fit >= kFlatBase) ? fit : ((fit >= kFlatFromOnly) ? kFlatFromOnly : kFlatEmpty);   // ... that can be built
+         bool over = false;
          if (r < 8) sz = kFlatEmpty; else if (r < 14) sz = kFlatFromOnly; else if (r < 26) sz = kFlatBase + wl.below(9);
          else if (r < 52) sz = common;
          else if (r < 62) sz = fit;                          // fills a packet exactly
-         else if (r < 68) sz = fit+1;                        // one byte too long: the sender drops it
-         else if (r < 71) sz = fit + 1 + wl.below(200);
-         else if (r < 85) sz = kFlatEmpty + wl.below(std::max<uint32_t>(1, fit/3));          // several per packet
+         else if (r < 67) {sz = fit+1; over = true;}         // one byte too long: the sender drops it
+         else if (r < 69) {sz = fit + 1 + wl.below(200); over = true;}
+         else if (r < 85) sz = Small(std::min<uint32_t>(fit/3, 100));                          // several per packet
          else sz = kFlatEmpty + wl.below(std::max<uint32_t>(1, fit));
+         if ((!over)&&(RoundFlat(sz) > fit)) sz = fitR;
       }
       else
       {
@@ -218,7 +235,7 @@ inline Plan Gen(uint64_t seed)
          else if (r < 50) sz = common;
          else if (r < 62) {const uint32_t k = 1 + wl.below(4); const uint32_t b = k*cap; sz = ((b > sh+1) ? (b-sh) : b) + wl.below(3) - 1;}   // packet boundary -1, 0, +1
          else if (r < 80) sz = cap*(1+wl.below(maxFrag)) + wl.below(cap);
-         else sz = kFlatEmpty + wl.below(std::max<uint32_t>(1, cap/3));                       // several per packet
+         else sz = Small(std::min<uint32_t>(cap/3, 100));                                      // several per packet
       }
       if (sz > maxFlat) sz = maxFlat;
       return RoundFlat(sz);
@@ -285,7 +302,7 @@ inline Plan Gen(uint64_t seed)
       {
          const int s = (int) wl.below((uint32_t) senders);
          uint32_t sz = PickSize();
-         if (burst) {const uint32_t r = wl.below(4); sz = (r == 0) ? kFlatEmpty : ((r == 1) ? kFlatFromOnly : RoundFlat(kFlatBase + wl.below(std::max<uint32_t>(1, std::min<uint32_t>(cap/3, 60)))));}
+         if (burst) {sz = Small(std::min<uint32_t>(cap/3, 60)); if ((g.mini)&&(sz+sh > cap)) sz = (kFlatFromOnly+sh <= cap) ? kFlatFromOnly : kFlatEmpty;}
          const uint32_t np = std::max<uint32_t>(1, g.NumPackets(sz));
          if (plannedPackets+np > maxPackets+40) sz = kFlatEmpty;
          EmitMsg(s, sz, true);
@@ -366,9 +383,9 @@ struct Harness : public AbstractGatewayMessageReceiver
    std::map<std::string, int> uidOf; std::vector<Unique> uniq;
    std::string ioViolCls, ioViolDetail;    // a violation noticed inside a DataIO callback; raised once the gateway call has returned
    uint64_t drops, dups, reorders, wouldBlocks, restarts, packets, delivered, msgsSent;
-   int lastDeliveredSrc; size_t curOp;
+   int lastDeliveredSrc;
 
-   Harness(const Plan & plan, RunResult & r) : cfg(plan), res(r), st(r.stats), drops(0), dups(0), reorders(0), wouldBlocks(0), restarts(0), packets(0), delivered(0), msgsSent(0), lastDeliveredSrc(-1), curOp(0)
+   Harness(const Plan & plan, RunResult & r) : cfg(plan), res(r), st(r.stats), drops(0), dups(0), reorders(0), wouldBlocks(0), restarts(0), packets(0), delivered(0), msgsSent(0), lastDeliveredSrc(-1)
    {
       for (int i=0; i<NUM_K; i++) k[i] = 0;
       mini    = cfg.i("mini", 0) != 0;
@@ -456,12 +473,12 @@ struct Harness : public AbstractGatewayMessageReceiver
    {
       if (rx.empty()) return io_status_t();
       const Pkt & p = rx.front();
-      const uint32 k = (uint32) std::min<size_t>(n, p.b.size());
-      if (k < p.b.size()) st.inc("p.rx_truncated");
-      memcpy(b, p.b.data(), k);
+      const uint32 nb = (uint32) std::min<size_t>(n, p.b.size());
+      if (nb < p.b.size()) st.inc("p.rx_truncated");
+      memcpy(b, p.b.data(), nb);
       from = S[p.src].addr;
       rx.pop_front();
-      return io_status_t((int32) k);
+      return io_status_t((int32) nb);
    }
    void Parse(Pkt & p) const
    {
@@ -745,7 +762,6 @@ inline void Exec(const Plan & plan, RunResult & res)
       std::vector<std::string> t = Split(line); if (t.empty()) continue;
       SetCurOp("C12 op %zu: %.200s", opIdx, line.c_str());
       WatchdogArm(0);
-      h.curOp = opIdx;
       h.th.s(t[0]);
       if (g_verbose) fprintf(stderr, "[op %zu] %s   (in flight %zu, rx %zu)\n", opIdx, line.c_str(), h.inflight.size(), h.rx.size());
            if ((t[0] == "msg")&&(t.size() >= 4))     h.OpMsg((int) ToI(t[1]), ToU(t[2]), (uint32_t) ToU(t[3]));
@@ -763,7 +779,6 @@ inline void Exec(const Plan & plan, RunResult & res)
    SetCurOp("C12 drain");
    WatchdogArm(0);
    h.th.s("drain");
-   const uint64_t wbBeforeDrain = h.wouldBlocks;
    for (int round=0; round<4; round++) {h.FlushSenders(false); h.DeliverAllInOrder(); h.OpIn(0);}
    const bool transportFaults = (h.drops + h.dups + h.reorders + h.restarts) > 0;
    const bool perfect = (!transportFaults)&&(h.wouldBlocks == 0);
@@ -798,7 +813,6 @@ inline void Exec(const Plan & plan, RunResult & res)
          }
       }
    }
-   (void) wbBeforeDrain;
    WatchdogDisarm();
 
    // statistics / non-triviality
